@@ -81,6 +81,34 @@ impl std::fmt::Debug for DictStarEntry {
     }
 }
 
+// Verification-only constructors and accessors (the fields are pub(super), so
+// dictionary and stream types cannot be built or inspected outside the crate).
+#[cfg(feature = "verif")]
+impl DictEntry {
+    pub fn verif_new(key: Vec<u8>, chk: Rc<TypeCheck>, opt: DictKeySpec) -> Self {
+        DictEntry { key, chk, opt }
+    }
+    pub fn verif_key(&self) -> &[u8] { &self.key }
+    pub fn verif_chk(&self) -> &Rc<TypeCheck> { &self.chk }
+    pub fn verif_opt(&self) -> DictKeySpec { self.opt }
+}
+#[cfg(feature = "verif")]
+impl DictStarEntry {
+    pub fn verif_new(chk: Rc<TypeCheck>, opt: DictKeySpec) -> Self { DictStarEntry { chk, opt } }
+    pub fn verif_chk(&self) -> &Rc<TypeCheck> { &self.chk }
+    pub fn verif_opt(&self) -> DictKeySpec { self.opt }
+}
+
+// Verification-only counter of work-loop iterations of check_type (per thread).
+#[cfg(feature = "verif")]
+thread_local! {
+    static VERIF_STEPS: std::cell::Cell<u64> = std::cell::Cell::new(0);
+}
+#[cfg(feature = "verif")]
+pub fn verif_steps() -> u64 { VERIF_STEPS.with(|c| c.get()) }
+#[cfg(feature = "verif")]
+pub fn verif_reset_steps() { VERIF_STEPS.with(|c| c.set(0)) }
+
 #[derive(Debug, PartialEq, Eq, PartialOrd, Ord)]
 pub enum PDFType {
     Any,
@@ -647,6 +675,8 @@ pub fn check_type(
 
     /* work loop */
     loop {
+        #[cfg(feature = "verif")]
+        VERIF_STEPS.with(|c| c.set(c.get() + 1));
         let next: GetResult = state.get_next_check(&result);
         if next.is_err() {
             // there can only be an error in getting the next check if
